@@ -322,7 +322,13 @@ def _merge(ancestor, our, their, allowed=None):
     unmergeable = list(diff(patch_ours_first, patch_theirs_first))
     if unmergeable:
         unmergeable_paths = []
-        for paths in patch(unmergeable, {}):
+        # only the paths are needed: a removal cannot be applied to an empty
+        # dict (KeyError), so collect its keys the same way as for an addition
+        conflicts = [
+            ("add" if typ == "remove" else typ, path, changes)
+            for typ, path, changes in unmergeable
+        ]
+        for paths in patch(conflicts, {}):
             unmergeable_paths.append(posixpath.join(*paths))
         raise MergeError(
             "unable to auto-merge the following paths:\n" + "\n".join(unmergeable_paths)
